@@ -952,8 +952,13 @@ def _mk_if_raw(c, t, e):
         return ("early", [(c, t)], e)
     if t[0] == "if" and t[3] == e and not _diverges(e):
         return _mk_if_raw(("op", "&&", [c, t[1]]), t[2], e)          # if a { if b { x } else { y } } else { y }  ==  if a && b { x } else { y }
+    if t[0] == "if" and t[2] == e and not _diverges(e):
+        return _mk_if_raw(("op", "&&", [c, _not(t[1])]), t[3], e)    # if a { if b { y } else { x } } else { y }  ==  if a && !b { x } else { y }
     if t[0] == "try" and e[0] == "try":
         return ("try", _mk_if_raw(c, t[1], e[1]))                    # if c { x? } else { y? }  ==  (if c { x } else { y })?
+    if t[0] == "struct" and e[0] == "struct" and t[1] == e[1] and t[2] == e[2] and t[3] is not None and e[3] is not None and set(t[3]) == set(e[3]):
+        # if c { S { a: x1, b: y } } else { S { a: x2, b: y } }  ==  S { a: if c { x1 } else { x2 }, b: y }
+        return ("struct", t[1], t[2], {f: (t[3][f] if t[3][f] == e[3][f] else _mk_if_raw(c, t[3][f], e[3][f])) for f in t[3]})
     if t == ("lit", True) and e == ("lit", False):
         return c
     if t == ("lit", False) and e == ("lit", True):
